@@ -492,23 +492,16 @@ theorem revocation_immediate (cfg : Cfg) (s s' : State) (n a k : String) (hadm :
     unfold removeDbApiKey at h
     split at h
     · cases h
-    · split at h
-      · rename_i hl
+    · dsimp only at h
+      split at h
+      · rename_i hok
         cases h
-        refine ⟨?_, fun _ _ => rfl⟩
+        have hb := ((storeApiKey_fields s n none).1 hok).1
+        refine ⟨?_, fun x hx => by rw [hb]; exact lookup_eraseKey_ne _ _ _ hx⟩
         unfold authorizeState
-        rw [hadm]
-        exact authorize_rejects a _ _ _ (by simp [hk]) (.inl hl)
-      · dsimp only at h
-        split at h
-        · rename_i hok
-          cases h
-          have hb := ((storeApiKey_fields s n none).1 hok).1
-          refine ⟨?_, fun x hx => by rw [hb]; exact lookup_eraseKey_ne _ _ _ hx⟩
-          unfold authorizeState
-          rw [hadm, hb]
-          exact authorize_rejects a _ _ _ (by simp [hk]) (.inl (lookup_eraseKey_self _ _))
-        · cases h
+        rw [hadm, hb]
+        exact authorize_rejects a _ _ _ (by simp [hk]) (.inl (lookup_eraseKey_self _ _))
+      · cases h
   · intro k₂ fresh res h hne
     unfold setDbApiKey at h
     simp only [Option.getD_some] at h
@@ -590,22 +583,22 @@ def exAdmin (m n : String) (k : Option String) : Event :=
 /-- state.rs, as it is now: on the way from `set_db_api_key` through `store_api_key` and
 `persist_api_keys` to `save_extension_from` (and from `persist_registry` to it) there is no early
 non-error `return` and no enclosing conditional other than `if let Some(db) = <primary>` — the model's
-`persistKeys` / `persistRegistry` have no skip path because the code has none; the one conditional
-store is `remove_db_api_key`'s (modelled: `.removed false` without persisting; harmless while the durable
-map equals the enforced one — `durable_equals_enforced` — and the source of the remaining counterexample
-for faults whose PUT landed). An "unchanged, skip" test added to any of these flips a fact here. -/
+`persistKeys` / `persistRegistry` have no skip path because the code has none; since commit 39a09a9
+`remove_db_api_key` stores unconditionally as well. An "unchanged, skip" test added to any of these
+flips a fact here. -/
 theorem persistence_paths_frozen :
     persistKeysUnconditional = true ∧ persistRegistryUnconditional = true ∧ storeAlwaysPersists = true ∧
-    setAlwaysStores = true ∧ removeStoresConditionally = true := by
+    setAlwaysStores = true ∧ removeStoresConditionally = false := by
   decide
 
 /-- **acknowledged_implies_durable.** Whatever the state — a read-only primary, an armed fault, an
 engine copy of the extensions left over from an earlier failed PUT — if a request is answered with
-the result of `db.set_api_key`, or of `db.remove_api_key` with `true`, then the durable key map
-equals the enforced one at that moment. (A 5xx answer acknowledges nothing.) -/
+the result of `db.set_api_key`, or of `db.remove_api_key` (`true` or `false`: the removal is
+persisted either way), then the durable key map equals the enforced one at that moment. (A 5xx answer
+acknowledges nothing.) -/
 theorem acknowledged_implies_durable (cfg : Cfg) (s : State) (r : Request) (res : RootResult)
     (hrep : (handle cfg s r).2.reply = .root res)
-    (hres : (∃ n g, res = .keySet n g) ∨ res = .removed true) :
+    (hres : (∃ n g, res = .keySet n g) ∨ (∃ b, res = .removed b)) :
     (handle cfg s r).1.durableBound = (handle cfg s r).1.bound := by
   obtain ⟨verb, target, auth, ct, accept, body, fresh⟩ := r
   unfold handle at hrep ⊢
@@ -629,7 +622,7 @@ theorem acknowledged_implies_durable (cfg : Cfg) (s : State) (r : Request) (res 
           · cases hrep
           · split at hrep
             · unfold scopedInfo at hrep
-              split at hrep <;> cases hrep <;> rcases hres with ⟨_, _, e'⟩ | e' <;> cases e'
+              split at hrep <;> cases hrep <;> rcases hres with ⟨_, _, e'⟩ | ⟨_, e'⟩ <;> cases e'
             · cases hrep
 
 /-- **acknowledged_survives_crash.** … so a crash right after the answer — and, because only an
@@ -638,7 +631,7 @@ next management request — restarts into exactly the acknowledged bindings: a r
 key is still rejected, a newly set key works. -/
 theorem acknowledged_survives_crash (cfg : Cfg) (s : State) (r : Request) (res : RootResult)
     (hrep : (handle cfg s r).2.reply = .root res)
-    (hres : (∃ n g, res = .keySet n g) ∨ res = .removed true) :
+    (hres : (∃ n g, res = .keySet n g) ∨ (∃ b, res = .removed b)) :
     (crash cfg (handle cfg s r).1).bound = (handle cfg s r).1.bound :=
   acknowledged_implies_durable cfg s r res hrep hres
 
@@ -692,23 +685,37 @@ example :
              exAdmin "db.create" "c" none, exAdmin "db.remove_api_key" "a" none, .crash] "a" = none := by
   decide +kernel
 
-/-- What remains false: when the armed fault is of the kind "the object WAS written, the failure is
-reported afterwards" — `flush_metadata` writes `db_meta.cbor` and then `storage_meta.cbor`, so a plain
-failing PUT of the second object is such a fault for the first — the statement fails even for the
-acknowledged no-op removal. -/
-def acknowledged_implies_durable_any_fault : Prop :=
-  ∀ (cfg : Cfg) (history : List Event) (r : Request) (b : Bool),
-    (handle cfg (run cfg (init cfg) history) r).2.reply = .root (.removed b) →
-    (handle cfg (run cfg (init cfg) history) r).1.durableBound = (handle cfg (run cfg (init cfg) history) r).1.bound
+/-- **acknowledged_implies_durable_any_fault.** For key REMOVALS (and acknowledged sets) no fault model
+is needed at all: whatever faults were armed before — including faults whose metadata PUT landed
+although a failure was reported (`Event.faultLanding`: the PUT of `storage_meta.cbor` failing after
+`db_meta.cbor` was written) — an answered `db.remove_api_key` (`true` or `false`) leaves the durable
+key map equal to the enforced one, with the database unbound in both. -/
+theorem acknowledged_implies_durable_any_fault (cfg : Cfg) (history : List Event) (r : Request) (b : Bool)
+    (hrep : (handle cfg (run cfg (init cfg) history) r).2.reply = .root (.removed b)) :
+    (handle cfg (run cfg (init cfg) history) r).1.durableBound = (handle cfg (run cfg (init cfg) history) r).1.bound ∧
+    (crash cfg (handle cfg (run cfg (init cfg) history) r).1).bound = (handle cfg (run cfg (init cfg) history) r).1.bound := by
+  have h := acknowledged_implies_durable cfg _ r _ hrep (.inr ⟨b, rfl⟩)
+  exact ⟨h, h⟩
 
-/-- `db.create a`; landing fault; `db.set_api_key a kx` → 500 (memory and engine copy rolled back, but
-`{a ↦ kx}` is on disk); `db.remove_api_key a` → 200 `false` (nothing persisted); crash: `kx` is bound. -/
-theorem acknowledged_noop_not_durable_counterexample : ¬ acknowledged_implies_durable_any_fault := by
-  intro h
-  have := h exCfg [exAdmin "db.create" "a" none, .faultLanding 0, exAdmin "db.set_api_key" "a" (some "kx")]
-    ⟨.post, .root, some (bearerPrefixBytes ++ [97, 100, 109]), some .cbor, none,
-      .rpc "db.remove_api_key" ⟨some "a", none, none⟩, "gen"⟩ false (by decide +kernel)
-  revert this
+/-- the former counterexample (a landed PUT reported as failed, then the no-op removal), now a
+regression example: after the crash nothing is bound -/
+example :
+    exKeyOf [exAdmin "db.create" "a" none, .faultLanding 0, exAdmin "db.set_api_key" "a" (some "kx"),
+             exAdmin "db.remove_api_key" "a" none, .crash] "a" = none := by
+  decide +kernel
+
+/-- What remains, precisely: a `db.set_api_key` answered 5xx under a landing fault has an UNKNOWN
+outcome until the next acknowledged request that writes the metadata object — if the process crashes
+before any such request, the requested key is what the restart loads, although memory (and every
+answer so far) enforced the old state. This is inherent in a reported failure of a write that
+landed; the acknowledged identical retry, an acknowledged removal, or any other successful metadata
+PUT settle it (`acknowledged_implies_durable`, `acknowledged_implies_durable_any_fault`). -/
+theorem unacknowledged_set_unknown_outcome :
+    exKeyOf [exAdmin "db.create" "a" none, .faultLanding 0, exAdmin "db.set_api_key" "a" (some "kx")] "a" = none ∧
+    exKeyOf [exAdmin "db.create" "a" none, .faultLanding 0, exAdmin "db.set_api_key" "a" (some "kx"), .crash] "a"
+      = some "kx" ∧
+    exKeyOf [exAdmin "db.create" "a" none, .faultLanding 0, exAdmin "db.set_api_key" "a" (some "kx"),
+             exAdmin "db.create" "c" none, .crash] "a" = none := by
   decide +kernel
 
 /-! ## Invariants over all histories -/
